@@ -109,17 +109,24 @@ def parse(output: str) -> dict:
     return res
 
 
-def cargo_kani(crate: str, harnesses: list[str], target: str, extra: list[str] = (), timeout=3000, jobs: int = 8, contracts: bool = False):
+def cargo_kani(crate: str, harnesses: list[str], target: str, extra: list[str] = (), timeout=1800, jobs: int = 8, contracts: bool = False):
     env = dict(os.environ, CARGO_NET_OFFLINE="true", CARGO_TARGET_DIR=target)
     cmd = ["cargo", "kani", "-Z", "stubbing"] + (["-Z", "function-contracts"] if contracts else []) + [x for h in harnesses for x in ("--harness", h)] + \
           (["-j", str(jobs)] if jobs > 1 else []) + ["--output-format", "terse"] + list(extra)
     t0 = time.time()
+    # own process group: on a timeout the whole tree (cargo-kani, kani-driver, the cbmc processes) is killed, not only cargo
+    import signal
+    p = subprocess.Popen(cmd, cwd=crate, env=env, stdout=subprocess.PIPE, stderr=subprocess.PIPE, text=True, start_new_session=True)
     try:
-        p = subprocess.run(cmd, cwd=crate, env=env, capture_output=True, text=True, timeout=timeout)
-        out = p.stdout + p.stderr
-    except subprocess.TimeoutExpired as e:
-        out = (e.stdout or b"").decode(errors="replace") if isinstance(e.stdout, bytes) else (e.stdout or "")
-        out += "\nTIMEOUT"
+        so, se = p.communicate(timeout=timeout)
+        out = so + se
+    except subprocess.TimeoutExpired:
+        try:
+            os.killpg(p.pid, signal.SIGKILL)
+        except ProcessLookupError:
+            pass
+        so, se = p.communicate()
+        out = (so or "") + (se or "") + "\nTIMEOUT"
     return " ".join(cmd), out, time.time() - t0
 
 
